@@ -625,6 +625,35 @@ func c05Atomic(c *Ctx, k *core) {
 	for _, f := range []*ssa.Function{k.view, k.viewVersion} {
 		name := relName(f)
 		n, loads := k.loadsIn(f, 0)
+		if n == 1 && len(loads) == 0 {
+			// the accessor delegates to the other accessor (itself checked): every result is taken from that one call
+			var via *ssa.Call
+			for _, i := range allInstrs(f) {
+				if ci, ok := i.(*ssa.Call); ok {
+					if callee := staticCallee(ci); callee != nil && (callee == origin(k.view) || callee == origin(k.viewVersion)) && callee != origin(f) {
+						via = ci
+					}
+				}
+			}
+			okVia := via != nil
+			if via != nil {
+				for _, r := range returnsOf(f) {
+					for _, rv := range retVals(r) {
+						if !derivesAll(rv, func(x ssa.Value) bool {
+							if x == ssa.Value(via) {
+								return true
+							}
+							e, ok := x.(*ssa.Extract)
+							return ok && e.Tuple == ssa.Value(via)
+						}, nil) {
+							okVia = false
+						}
+					}
+				}
+			}
+			c.check(okVia, "atomic-pair", name+"#one-load", f.Pos(), "delegates to the other accessor (one atomic load there); every result is taken from that single call", "the accessor reaches the published version through a callee but its results are not all taken from that one call")
+			continue
+		}
 		if n != 1 || len(loads) != 1 {
 			c.bad("atomic-pair", name+"#one-load", f.Pos(), "%d atomic loads of the published version on the way through this accessor (want exactly 1): config and serial may come from different versions", n)
 			continue
